@@ -952,6 +952,7 @@ impl<const M: usize> Sim<M> {
         } else {
             if self.chunks.len() > 1 {
                 rep.violate("C06", "C06/holds-more-than-one-block-after-reset", format!("{}", self.chunks.len()));
+                rep.violate("C03", "C03/reset/did-not-return-all-chunks-but-one", format!("{} blocks still held after reset ({} returned by it)", self.chunks.len(), self.released));
             }
             if obs.chunks.len() > 1 {
                 rep.violate("C06", "C06/iter-yields-more-than-one-chunk-after-reset", format!("{}", obs.chunks.len()));
